@@ -450,6 +450,9 @@ class C18(PersistProfile):
             if op["op"] == "deq":
                 self.deq(ctx, seed, run, i, A, B, op)
                 return
+            if op["op"] == "deq_pair":
+                self.deq_pair(ctx, seed, run, i, A, op)
+                return
             targets = [op["world"]] if "world" in op else ["A", "B"]
             o = {k: v for k, v in op.items() if k not in ("world", "pname", "changes")}
             for name in targets:
@@ -528,12 +531,33 @@ class C18(PersistProfile):
                                 push(dict(o, world=second))
                             push({"op": "deq", "ir": ir, "nodes": rp.random() < 0.15})
                         done += 1
+                    # a hand-made copy that SHARES sub-objects with the original (what deep_eq is
+                    # documented for: "manually constructed Nodes that may share the same UUID
+                    # despite being different objects"): same UUID, same attributes, the very
+                    # same expression objects - then one entry moved to another offset
+                    with seams.observing():
+                        cands = sorted(l for l in A.m.by_kind("bi") if A.m.nodes[l].a["se"] and l in B.m.nodes)
+                    if cands and rp.random() < 0.6:
+                        X = cands[rp.randrange(len(cands))]
+                        with seams.observing():
+                            xa = A.m.nodes[X].a
+                            C = A.fresh("bi")
+                            offs = sorted(xa["se"])
+                            new_off = max(offs) + 1 + rp.randrange(3)
+                            clone = {"op": "new", "kind": "bi", "label": C, "uuid": A.m.nodes[X].uuid,
+                                     "attrs": {"address": xa["address"], "size": xa["size"], "contents": bytes(xa["contents"]).hex()}}
+                        push(dict(clone, world="A"))  # replica A only: the pair lives in one world
+                        push({"op": "se", "bi": C, "method": "assign", "from": X, "args": [], "world": "A"})
+                        push({"op": "deq_pair", "a": X, "b": C})
+                        push({"op": "se", "bi": C, "method": "move", "args": [offs[rp.randrange(len(offs))], new_off], "world": "A"})
+                        push({"op": "deq_pair", "a": X, "b": C, "pname": "clone_entry_moved"})
+                        pk.append("clone_entry_moved")
             except WatchdogTimeout:
                 A.violate(("C18",), "timeout", "deep_eq exceeded the CPU-time budget")
         except Violation as v:
             res.violation = {"prop": v.prop, "check": v.check, "detail": v.detail[:2000], "step": cur["i"]}
         except Diverged as d:
-            res.aborted = str(d)[:300]
+            res.aborted = str(d)[:1200]
         except WatchdogTimeout:
             res.aborted = "timeout"
         except Exception:
@@ -605,6 +629,17 @@ class C18(PersistProfile):
                 exp = True if worlds_equal else (False if not own_equal else None)
                 self.judge_pair(ctx, seed, run, i, A, A.objs[l], B.objs[l], exp, "node %s in both replicas" % l, "node")
                 A.counters["probe:deq_nodes"] += 1
+
+    def deq_pair(self, ctx, seed, run, i, A, op):
+        """Two nodes of ONE world (an original and a hand-made copy sharing sub-objects)."""
+        a, b = op["a"], op["b"]
+        if a not in A.objs or b not in A.objs:
+            return
+        with ctx.seams.observing():
+            ua = lambda l: A.m.nodes[l].uuid if l in A.m.nodes else A.label_uuid.get(l)  # noqa
+            want = canon_tree(A.m, a, ua) == canon_tree(A.m, b, ua)
+        self.judge_pair(ctx, seed, run, i, A, A.objs[a], A.objs[b], want, "%s and its hand-made copy %s (sharing the expression objects)%s" % (a, b, " after one entry was moved" if op.get("pname") else ""), "clone")
+        A.counters["probe:deq_clone_" + ("equal" if want else "different")] += 1
 
     def judge_pair(self, ctx, seed, run, i, A, a, b, want, what, level):
         seams = ctx.seams
